@@ -12,37 +12,10 @@ from contracts import pysam_model as PM
 R = Registry("whatshap/cli/unphase.py")
 PM.install(R)
 OPTINT = PM.OPTINT
-from vcgen.builtins_model import sorted_fn  # noqa: E402
-_SORTED = sorted_fn(OPTINT)
 
 
-def _arrs(eng, st):
-    A = z3.ArraySort
-    I, B = z3.IntSort(), z3.BoolSort()
-    return dict(
-        fmt=eng.heap_arr(st, "Record.fmt#dom", A(I, B)),
-        gt=eng.heap_arr(st, "Call.gt#arr", A(I, OPTINT.dt)), gtlen=eng.heap_arr(st, "Call.gt#len", I),
-        none=eng.heap_arr(st, "Call.gt_none", B), ph=eng.heap_arr(st, "Call.ph#dom", A(I, B)),
-        calls=eng.heap_arr(st, "Record.calls#arr", A(I, I)), ncalls=eng.heap_arr(st, "Record.calls#len", I))
 
-
-def _keys(eng):
-    return {t: eng.key_of(eng.str_const(t)) for t in ("HP", "PQ", "PS", "GT")}
-
-
-def _call_untouched(a, a0, c):
-    return z3.And(a["gt"][c] == a0["gt"][c], a["gtlen"][c] == a0["gtlen"][c], a["none"][c] == a0["none"][c], a["ph"][c] == a0["ph"][c])
-
-
-def _call_done(a, a0, c):
-    """the call's genotype after unphasing, in terms of its genotype on entry"""
-    i = z3.Int(fresh_name("i"))
-    known = z3.ForAll([i], z3.Implies(z3.And(i >= 0, i < a0["gtlen"][c]), z3.Not(OPTINT.dt.is_none(a0["gt"][c][i]))))
-    sortable = z3.And(z3.Not(a0["none"][c]), known)
-    return z3.And(
-        forall_pat([i], z3.Implies(i >= 1, z3.Not(a["ph"][c][i])), [a["ph"][c][i]]),                       # no phase bit left
-        a["gtlen"][c] == a0["gtlen"][c], a["none"][c] == a0["none"][c],
-        z3.If(sortable, a["gt"][c] == _SORTED(a0["gt"][c], a0["gtlen"][c]), a["gt"][c] == a0["gt"][c]))
+_arrs, _keys, _call_untouched, _call_done = PM._arrs, PM._keys, PM._call_untouched, PM._call_done
 
 
 def _rec_fmt_done(eng, a, a0, r):
